@@ -1094,11 +1094,17 @@ Registry full_registry(const Plan& p, int pi, const std::set<int>& skip = {}) {
     return r;
 }
 
+// whether the plan being generated allows objects whose dynamic class is
+// abstract (Plan::abstract_args); a pure function of the seed, set by
+// generate() before the profile runs
+static bool g_abstract_args = false;
+
 // legal argument classes of a method parameter
 std::vector<int> legal_classes(const Lattice& L, int param_class) {
     std::vector<int> v;
     for (int c = 0; c < L.n; ++c)
-        if (L.reg[c] && !L.abstract[c] && L.le(c, param_class))
+        if (L.reg[c] && (!L.abstract[c] || g_abstract_args) &&
+            L.le(c, param_class))
             v.push_back(c);
     return v;
 }
@@ -2448,7 +2454,20 @@ bool has_profile(const std::string& prop) {
     return false;
 }
 
+static Plan generate_profile(const std::string& prop, std::uint64_t seed, int tier);
+
 Plan generate(const std::string& prop, std::uint64_t seed, int tier) {
+    // half of the runs: a registered abstract class is a legal dynamic class
+    // (a method called from the constructor or destructor of an abstract
+    // base); not under the scheduler, which has its own argument rules
+    g_abstract_args = prop != "C16" && (mix3(seed, 0xAB57AC7, 1) & 1);
+    Plan p = generate_profile(prop, seed, tier);
+    p.abstract_args = g_abstract_args ? 1 : 0;
+    g_abstract_args = false;
+    return p;
+}
+
+static Plan generate_profile(const std::string& prop, std::uint64_t seed, int tier) {
     if (prop == "C01")
         return gen_C01(seed, tier);
     if (prop == "C02")
